@@ -160,8 +160,8 @@ def probe_member_pairs(ctx, name, cls, seedstr):
     for a, b in pairs:
         if any(a in g and b in g for g in optm + reqm):
             continue
-        if any(a in g or b in g for g in optm + reqm):
-            continue  # interplay with groups is probed separately
+        if any((a in g or b in g) and any(o in base_kwargs and o not in (a, b) for o in g) for g in optm + reqm):
+            continue  # the base already holds another member of a's or b's group: that interplay is probed separately
         ctx.ev()
         ctx.count("member_pairs_probed")
         case = {"op": "pair", "cls": name, "pair": [a, b], "seedstr": seedstr}
